@@ -418,3 +418,103 @@ Proof.
   unfold c12_idle, c12_prefix. cbn [ofinal].
   apply ReachD_step; [apply ReachD_step; [apply ReachD_start|exact I]|reflexivity].
 Qed.
+
+(* ---- the model's tables are the code's tables (gen/SessionTables.v, regenerated from the Rust source on every run by
+   tools/gen/gen_session_tables.py; the interpretation of each table: Outstation/TablesAgree.v) ------------------- *)
+From Dnp3V Require Import App.AppHeader App.Grammar Outstation.Full gen.SessionTables Outstation.TablesAgree.
+
+(* `impl From<ObjectParseError> for Iin2`: the IIN2 bit of every object error of the model *)
+Theorem C12_tables_obj_err_iin2 : forall e : aobj_err,
+  ta_obj_err_iin2 (ta_obj_err e) = Some (iin2_of_obj_err e).
+Proof. exact tables_obj_err_iin2. Qed.
+Print Assumptions C12_tables_obj_err_iin2.
+
+(* the function codes of Session.v are FunctionCode::as_u8 *)
+Theorem C12_tables_function_codes :
+  [fn_confirm; fn_read; fn_write; fn_select; fn_operate; fn_direct_operate; fn_direct_operate_nr;
+   fn_immediate_freeze; fn_immediate_freeze_nr; fn_freeze_clear; fn_freeze_clear_nr; fn_freeze_at_time;
+   fn_freeze_at_time_nr; fn_cold_restart; fn_warm_restart; fn_enable_unsol; fn_disable_unsol;
+   fn_delay_measure; fn_record_time; fn_response; fn_unsol_response]
+  = [tb_fc_confirm; tb_fc_read; tb_fc_write; tb_fc_select; tb_fc_operate; tb_fc_direct_operate;
+     tb_fc_direct_operate_no_response; tb_fc_immediate_freeze; tb_fc_immediate_freeze_no_response;
+     tb_fc_freeze_clear; tb_fc_freeze_clear_no_response; tb_fc_freeze_at_time; tb_fc_freeze_at_time_no_response;
+     tb_fc_cold_restart; tb_fc_warm_restart; tb_fc_enable_unsolicited; tb_fc_disable_unsolicited;
+     tb_fc_delay_measure; tb_fc_record_current_time; tb_fc_response; tb_fc_unsolicited_response].
+Proof. exact tables_function_codes. Qed.
+Print Assumptions C12_tables_function_codes.
+
+(* FunctionInfo::objects_allowed (gen/FunctionCodes.v) *)
+Theorem C12_tables_objects_allowed : forall fn b, In (fn, b) function_codes -> objects_allowed fn = b.
+Proof. exact tables_objects_allowed. Qed.
+Print Assumptions C12_tables_objects_allowed.
+
+(* handle_non_read: for every function code, in every state, the model does what the row of `match function` (or its
+   `_` arm) says, then get_iin2 *)
+Theorem C12_tables_non_read_dispatch : forall cfg s fn seq frame_id bytes hdrs, fn < 256 ->
+  handle_non_read cfg s fn seq frame_id bytes hdrs = ta_handle_non_read cfg s fn seq frame_id bytes hdrs.
+Proof. exact tables_non_read_dispatch. Qed.
+Print Assumptions C12_tables_non_read_dispatch.
+
+(* the function codes whose arm ends in `None` are not answered *)
+Theorem C12_tables_non_read_no_ack : forall cfg s fn seq frame_id bytes hdrs h, fn < 256 ->
+  ta_non_read_lookup fn = Some (h, TbReplyNever) ->
+  snd (fst (handle_non_read cfg s fn seq frame_id bytes hdrs)) = None.
+Proof. exact tables_non_read_no_ack. Qed.
+Print Assumptions C12_tables_non_read_no_ack.
+
+(* the function codes without an arm are answered with NO_FUNC_CODE_SUPPORT (and PARAMETER_ERROR for objects that
+   the function does not allow) and nothing else happens *)
+Theorem C12_tables_non_read_unsupported : forall cfg s fn seq frame_id bytes hdrs, fn < 256 ->
+  ta_non_read_lookup fn = None ->
+  handle_non_read cfg s fn seq frame_id bytes hdrs =
+  (s, Some (with_iin2 (empty_solicited seq tb_iin2_no_func_code_support)
+                      (if objects_allowed fn then 0 else match hdrs with [] => 0 | _ => tb_iin2_parameter_error end)), []).
+Proof. exact tables_non_read_unsupported. Qed.
+Print Assumptions C12_tables_non_read_unsupported.
+
+(* handle_controls: which control type is answered when a header is not a control header, and otherwise *)
+Theorem C12_tables_controls_bad_header : forall cfg s ct seq frame_id bytes hdrs, all_controls hdrs = false ->
+  handle_controls cfg s (ta_ct_code ct) seq frame_id bytes hdrs =
+  (s, if fst (ta_controls_reply ct) then Some (empty_solicited seq tb_controls_bad_header_iin2) else None, []).
+Proof. exact tables_controls_bad_header. Qed.
+Print Assumptions C12_tables_controls_bad_header.
+
+Theorem C12_tables_controls_reply : forall cfg s ct seq frame_id bytes hdrs, all_controls hdrs = true ->
+  match snd (fst (handle_controls cfg s (ta_ct_code ct) seq frame_id bytes hdrs)) with
+  | Some _ => snd (ta_controls_reply ct) = true
+  | None => snd (ta_controls_reply ct) = false
+  end.
+Proof. exact tables_controls_reply. Qed.
+Print Assumptions C12_tables_controls_reply.
+
+(* process_broadcast_get_action: which functions a broadcast may carry, and with which handler *)
+Theorem C12_tables_broadcast_dispatch : forall cfg s m frame_id ctl fn bytes obj, fn < 256 ->
+  process_broadcast cfg s m frame_id ctl fn bytes obj = ta_process_broadcast cfg s m frame_id ctl fn bytes obj.
+Proof. exact tables_broadcast_dispatch. Qed.
+Print Assumptions C12_tables_broadcast_dispatch.
+
+(* ParsedFragment::to_request / to_response: the checks in the order of the code *)
+Theorem C12_tables_to_request : forall h, ato_request h = ta_to_request h.
+Proof. exact tables_to_request. Qed.
+Print Assumptions C12_tables_to_request.
+
+Theorem C12_tables_to_response : forall h,
+  (match ah_iin h with Some _ => true | None => false end) = afunction_has_iin (ah_function h) ->
+  ato_response h = ta_to_response h.
+Proof. exact tables_to_response. Qed.
+Print Assumptions C12_tables_to_response.
+
+Theorem C12_tables_functions_with_iin : forall f, f < 256 ->
+  afunction_has_iin f = existsb (N.eqb f) tb_functions_with_iin.
+Proof. exact tables_functions_with_iin. Qed.
+Print Assumptions C12_tables_functions_with_iin.
+
+(* the tables are not empty and the hypotheses are satisfiable *)
+Example C12_tables_instances :
+  ta_non_read_lookup 6 = Some (TbHandleControls TbDirectOperateNoAck, TbReplyByHandler) /\
+  ta_non_read_lookup 8 = Some (TbHandleFreeze TbImmediateFreeze, TbReplyNever) /\
+  ta_non_read_lookup 22 = None /\ ta_broadcast_lookup 23 = None /\
+  ta_broadcast_lookup 2 = Some TbHandleWrite /\
+  ta_obj_err_iin2 (ta_obj_err (OEUnknownGV 9 9)) = Some 2 /\
+  length tb_non_read_dispatch = 17%nat /\ length tb_broadcast_dispatch = 8%nat /\ length tb_obj_err_iin2 = 10%nat.
+Proof. vm_compute. repeat split. Qed.
